@@ -113,7 +113,9 @@ def rand_cells(rng, n, with_none=True):
     return cells
 
 SEP_KINDS = ["none", "prim+", "prim-", "prim0", "primwrongdir", "sizeof", "sizeof_nooutline",
-             "alignaxis", "z", "db", "layer"]
+             "alignaxis", "z", "db", "layer",
+             # generator audit 2026-10-02: COMBINATIONS of two of the three optional separation fields, and SizeOf aliasing
+             "bothaxes", "z+prim", "sizeof_placed", "sizeof_ref"]
 ALIGNS = [{"side": s} for s in range(4)] + ["center", "ports"]
 
 def make_sep(rng, kind, side, sepcell, nonecell):
@@ -140,6 +142,15 @@ def make_sep(rng, kind, side, sepcell, nonecell):
         return sep_on(ax, {"db": rng.randint(1, 9)})
     if kind == "layer":
         return sep_on(ax, {"layer": [rng.randint(0, 2), rng.randint(1, 9)]})
+    if kind == "bothaxes":       # a legal side-axis separation AND one in the alignment axis (Err expected)
+        a, b = {"prim": [HORIZ, rng.randint(1, 9)]}, {"prim": [VERT, rng.randint(1, 9)]}
+        return sp(x=a, y=b)
+    if kind == "z+prim":         # a legal side-axis separation AND a z separation (Err expected)
+        s = sep_on(ax, {"prim": [ax, rng.randint(1, 9)]}); s["z"] = rng.choice([-1, 0, 1]); return s
+    if kind == "sizeof_placed":  # SizeOf(the cell of the instance being placed): the same cell lock is read twice
+        return sep_on(ax, {"sizeof": 1})
+    if kind == "sizeof_ref":     # SizeOf(the cell of the reference instance)
+        return sep_on(ax, {"sizeof": 0})
     raise ValueError(kind)
 
 REFL = [(False, False), (True, False), (False, True), (True, True)]
@@ -344,10 +355,96 @@ def fixed_cases():
         c.setdefault("same_set", False)
     return out
 
+def audit_cases():
+    """Directed families added by the generator audit of 2026-10-02 (each class was absent from the quick tier):
+    one pointer listed twice (within `instances`, within `places`, in both lists, an array twice); relation cycles that run through a
+    Port placeable or through a relatively placed array; big arrays (flat 300, nested 12 x 12 x 3, all reflections); and library-level
+    structure: the parent below 1-3 wrapper cells that instantiate it, and a sibling cell with a relative placement of its own listed
+    before / after the parent (`wrap` / `sibling` options of a run; judged on `all_abs` and the sibling's location by evaluate())."""
+    cells = [{"x": [11], "y": [12]}, {"x": [2], "y": [1]}, None, {"x": [5, 3], "y": [2, 7]}]
+    out = []
+    R = lambda to, side=RIGHT, al=BOTTOM, sep=None: rel(to, side, {"side": al}, sep)
+    base = [inst(0, ab(3, -4), True, False), inst(1, R(0)), inst(3, R(1, TOP, LEFT, sp(y={"prim": [VERT, 2]})), False, True),
+            inst(1, R(2, LEFT, TOP, sp(x={"sizeof": 3})), True, True)]
+    # one pointer reached twice
+    out.append({"cells": cells, "nodes": base, "kind": "audit/listed_twice", "same_set": True,
+                "runs": [{"instances": [0, 1, 2, 3], "places": []},
+                         {"instances": [3, 3, 2, 1, 0], "places": []},             # twice in `instances`, dependent first
+                         {"instances": [1, 0, 1, 2, 3, 0], "places": []},
+                         {"instances": [3, 2, 1, 0], "places": [0, 3]},            # in `instances` and in `places`
+                         {"instances": [], "places": [2, 2, 3, 3, 0, 0, 1, 1]},
+                         {"instances": [1], "places": [3, 2, 1, 0, 1]}]})
+    a = {"unit": {"cell": 1}, "count": 3, "sep": sp({"prim": [0, 5]}, {"prim": [1, -2]})}
+    out.append({"cells": cells, "nodes": [arrinst(a, ab(10, 20), True, True), inst(1, ab(0, 0))], "kind": "audit/listed_twice", "same_set": True,
+                "runs": [{"instances": [1], "places": [0]}, {"instances": [1, 1], "places": [0, 0]}, {"instances": [], "places": [0, 1, 0]}]})
+    # cycles that do not consist of instances only
+    out.append({"cells": cells, "nodes": [inst(1, R(2)), inst(1, R(0, TOP, LEFT)), {"k": "port", "inst": 1}, inst(0, ab(0, 0))], "kind": "audit/cycle_via_port",
+                "runs": [{"instances": [0, 1, 3], "places": []}, {"instances": [3, 1, 0], "places": []}, {"instances": [3], "places": [2]},
+                         {"instances": [], "places": [3, 2, 0]}]})
+    out.append({"cells": cells, "nodes": [inst(1, R(1)), arrinst(a, R(0, TOP, LEFT)), inst(0, ab(0, 0))], "kind": "audit/cycle_via_array",
+                "runs": [{"instances": [0, 2], "places": []}, {"instances": [2], "places": [1]}, {"instances": [2, 0], "places": [1]},
+                         {"instances": [], "places": [1, 0, 2]}]})
+    out.append({"cells": cells, "nodes": [arrinst(a, R(0))], "kind": "audit/cycle_via_array", "runs": [{"instances": [], "places": [0]}]})
+    # big arrays
+    big = {"unit": {"cell": 1}, "count": 300, "sep": sp({"prim": [0, 3]}, {"prim": [1, -1]})}
+    inner = {"unit": {"cell": 3}, "count": 3, "sep": sp({"prim": [0, 1]}, None)}
+    mid = {"unit": {"arr": inner}, "count": 12, "sep": sp(None, {"prim": [1, 9]})}
+    n3 = {"unit": {"arr": mid}, "count": 12, "sep": sp({"prim": [0, 40]}, {"prim": [1, 1]})}
+    nodes = [arrinst(big, ab(1, 2), rh, rv) for rh, rv in REFL] + [arrinst(n3, ab(-7, 5), rh, rv) for rh, rv in REFL]
+    out.append({"cells": cells, "nodes": nodes, "kind": "audit/array_large", "same_set": False,
+                "runs": [{"instances": [], "places": [k]} for k in range(8)]})
+    # numeric boundaries: cells of width / height 0, and coordinates / separations around 2^40 (far from the isize limits)
+    zc = [{"x": [0], "y": [7]}, {"x": [4], "y": [0]}, {"x": [0], "y": [0]}, {"x": [6, 0], "y": [0, 3]}]
+    B = 1 << 40
+    for kind, cs, refs, sepn in (("audit/zero_size", zc, [inst(0, ab(5, -5), True, False), inst(1, ab(-5, 5), False, True), inst(2, ab(0, 0), True, True)], 0),
+                                 ("audit/big_coords", cells, [inst(0, ab(B, -B), True, False), inst(1, ab(-B + 1, B - 1), False, True), inst(3, ab(B, B), True, True)], B)):
+        nodes = list(refs)
+        runs = []
+        for ri in range(len(refs)):
+            for side in range(4):
+                for al in [a for a in range(4) if axis(a) != axis(side)]:
+                    rh, rv = REFL[(side + al + ri) % 4]
+                    k = len(nodes)
+                    sep = sep_on(axis(side), {"prim": [axis(side), sepn - ri]}) if (side + ri) % 2 else sep_on(axis(side), {"sizeof": (ri + side) % len(cs)})
+                    nodes.append(inst((k + side) % len(cs), rel(ri, side, {"side": al}, sep), rh, rv))
+                    runs.append({"instances": [k, ri], "places": []})
+        out.append({"cells": cs, "nodes": nodes, "kind": kind, "same_set": False, "runs": runs})
+    # library structure around the parent
+    runs = []
+    for wrap in (0, 1, 3):
+        for sib in (None, "before", "after"):
+            if wrap == 0 and sib is None:
+                continue
+            r = {"instances": [3, 1, 2, 0] if wrap != 1 else [1, 0], "places": [] if wrap != 1 else [3, 2], "wrap": wrap}
+            if sib:
+                r["sibling"] = sib
+            runs.append(r)
+    out.append({"cells": cells, "nodes": base, "kind": "audit/library_levels", "same_set": True, "runs": runs})
+    # the same with a failing parent: the whole call must fail, whatever surrounds the parent
+    bad = [inst(1, R(0)), inst(1, R(0, TOP, LEFT))]
+    out.append({"cells": cells, "nodes": bad + [inst(1, R(1))], "kind": "audit/library_levels", "same_set": False,
+                "runs": [{"instances": [0, 1, 2], "places": [], "wrap": 2, "sibling": "before"}, {"instances": [2], "places": [], "wrap": 1, "sibling": "after"}]})
+    for c in out:
+        c.setdefault("same_set", False)
+    return out
+
+SIBLING_EXPECT = [7, 7]     # s0 at (5, 7), cell 2 x 3, s1 to its Right aligned Bottom (harness/src/bin/c09.rs)
+
+def structure_ok(run, r):
+    """The part of the statement the Coq check does not see for `wrap` / `sibling` runs: after a successful call every instance of
+    EVERY cell is absolutely placed, and the sibling's own relation was resolved."""
+    if "ok" not in r:
+        return True
+    if r.get("all_abs") is False:
+        return False
+    if run.get("sibling") and r.get("sibling") != SIBLING_EXPECT:
+        return False
+    return True
+
 def gen_cases(chk):
     rng = chk.rng
     quick = chk.tier == "quick"
-    cases = list(fixed_cases())
+    cases = list(fixed_cases()) + audit_cases()
     for variant in range(2 if quick else 12):
         for side in range(4):
             for align in ALIGNS:
@@ -372,7 +469,10 @@ def gen_cases(chk):
     return cases
 
 def harness_view(c):
-    return {"cells": c["cells"], "nodes": c["nodes"], "runs": c["runs"]}
+    v = {"cells": c["cells"], "nodes": c["nodes"], "runs": c["runs"]}
+    if c.get("uses_parent_cell"):
+        v["uses_parent_cell"] = True
+    return v
 
 HDR = ("From Coq Require Import ZArith List Bool.\nImport ListNotations.\n"
        "From L21 Require Import Tetris.Placer Tetris.PlacerSpec Tetris.PlacerCheck.\nOpen Scope Z_scope.\n")
@@ -389,7 +489,10 @@ def evaluate(chk, cases, tag):
             idx.append(i)
     codes = coq_eval_lists(HDR, items, chk.rundir, tag, shard=120)
     for i, s in zip(idx, codes):
-        out[i] = (parse_z(s), res[i])
+        code = parse_z(s)
+        if code != 2 and not all(structure_ok(run, rr) for run, rr in zip(cases[i]["runs"], res[i]["runs"])):
+            code = 2       # an instance somewhere in the returned library is still relatively placed / the sibling was not resolved
+        out[i] = (code, res[i])
     return out
 
 def nontrivial(c):
@@ -398,6 +501,8 @@ def nontrivial(c):
 def run(chk, replay=None):
     chk.proof_leg(["Tetris/PlacerCheck.vo"], "Properties/C09.v", ["Tetris/Placer_proofs.v"], "Properties.C09")
     kernel_tie_leg(chk, "tetris_place")       # generated-from-source kernels = the model functions (Properties/KernelsTetris.v)
+    kernel_tie_leg(chk, "order_generic")      # DepOrderer::push / order generated from the source (the placement orderer) = the model (Properties/KernelsOrder.v)
+    kernel_tie_leg(chk, "order_tetris")       # PlaceOrder::process and the orderer of Tetris/Placer.v (push, node_dep) = the generated code (Properties/KernelsOrderTetris.v)
     chk.assumptions += [
         "isize arithmetic does not overflow (coordinates are Z in the model; generated coordinates are small)",
         "a layout's placeables are a finite pool of distinct pointers, node id = pointer identity; RwLock behaviour is not modelled "
